@@ -132,7 +132,24 @@ func (tr *Trans) call(c *ssa.CallCommon, in ssa.Instruction, resT types.Type) Va
 			key = "funcfield:" + fieldKeyOf(pt, under(pt).(*types.Struct).Field(fa.Field).Name())
 		}
 	}
+	if fl, ok := c.Value.(*ssa.Field); ok {
+		// h.fn(...) on a struct value
+		if st, ok := under(fl.X.Type()).(*types.Struct); ok {
+			key = "funcfield:" + fieldKeyOf(fl.X.Type(), st.Field(fl.Field).Name())
+		}
+	}
 	if ct := tr.g.specs.Contracts[key]; ct != nil {
+		if ct.Determ && len(fv.C) >= 1 {
+			// the function value itself is the first operand of the deterministic application
+			args = append([]Val{{T: tInt, C: []Term{fv.C[0]}}}, args...)
+			saved := ct.Params
+			if len(ct.Params) > 0 {
+				ct.Params = append([]string{"fn$"}, ct.Params...)
+			}
+			r := tr.applyContract(ct, nil, c.Signature(), args, in, resT, key, false)
+			ct.Params = saved
+			return r
+		}
 		return tr.applyContract(ct, nil, c.Signature(), args, in, resT, key, false)
 	}
 	return tr.havocCall(key, args, resT, in)
